@@ -1,3 +1,4 @@
+import SJ.Props.C02
 import SJ.Props.C02Map
 import SJ.Props.C06Int
 #print axioms SJ.Props.C02Map.c02_bytesLt_strict_total_order
@@ -13,3 +14,9 @@ import SJ.Props.C06Int
 #print axioms SJ.Props.C06Int.c06_parse_integer_intClass
 #print axioms SJ.Props.C06Int.c06_minus_zero
 #print axioms SJ.Props.C06Int.c06_out_of_integer_range
+#print axioms SJ.Props.C02.c02_denotes
+#print axioms SJ.Props.C02.c19_skip_sound
+#print axioms SJ.Props.C02.c19_skip_value
+#print axioms SJ.Props.C02.c02_array_order
+#print axioms SJ.Props.C02.c02_string_is_decoded_text
+#print axioms SJ.Props.C02.c02_side_conditions
